@@ -456,6 +456,10 @@ func ReplayTest(t *testing.T, subs ...Replayer) {
 		}
 		if f != nil {
 			fmt.Printf("REPLAY-FAILS property=%s sub=%s clause=%s: %s\n", r.Property, r.Sub, f.Clause, f.Message)
+			if f.History != nil && os.Getenv("VERIF_REPLAY_HISTORY") != "" {
+				hb, _ := json.MarshalIndent(f.History, "", " ")
+				fmt.Printf("HISTORY %s\n", hb)
+			}
 			t.Fatalf("replay fails: %s: %s", f.Clause, f.Message)
 		}
 		fmt.Printf("REPLAY-PASSES property=%s sub=%s\n", r.Property, r.Sub)
